@@ -14,7 +14,7 @@ import (
 // C19 — QUIC varints and length-prefixed byte strings are exact and bounds-safe.
 type c19 struct{ base }
 
-func init() { core.Register(c19{base{"C19", "exploration", 600, 20000}}) }
+func init() { core.Register(c19{base{"C19", "exploration", 20000, 800000}}) }
 
 func (c19) Describe() core.Description {
 	return core.Description{
